@@ -342,7 +342,10 @@ var c18Families = [][]string{
 
 var c18KeySets = [][]string{{"id"}, {"name"}, {"id", "name"}, {"k1", "k2"}, {"id", "k2", "name"}, {"key"}}
 
-var c18KeyValues = []string{"1", "10", "1-0", "2", "true", "false", "a", "ab", "a.b", "0", "A", "x_1", "10.0.0.1", "eth0", "eth0.1", "100"}
+var c18KeyValues = []string{"1", "10", "1-0", "2", "true", "false", "a", "ab", "a.b", "0", "A", "x_1", "10.0.0.1", "eth0", "eth0.1", "100",
+	// values holding the characters the path syntax itself uses between a key name and its value or between two
+	// names (base64 text, distinguished names, prefixed identities): all accepted by the path validation
+	"YQ==", "YQ=", "cn=a", "cn=b", "a=b=c", "m:id", "-1", "a:b=c"}
 
 func c18GenKids(s c17Src, depth int) []*c18Node {
 	fam := c18Families[s.Intn(len(c18Families), "family")]
